@@ -5,7 +5,9 @@
 (*  pkt    one inbound message on one transport: its length, header, whether   *)
 (*         the real Unpack decodes the same octets, and what was observed:     *)
 (*         handler invocations, invalid-callback invocations, replies.         *)
-(*         Judged by Outcome / LibReply; drives the exactly-once machine.      *)
+(*         Judged by OutcomeAt (the lifecycle phase the recorder realised for  *)
+(*         the message, field `phase') / LibReply; drives the exactly-once     *)
+(*         machine.                                                            *)
 (*  totals the harness' own global counters; must equal the machine's.         *)
 (*  round  a fresh ServeMux with the listed patterns registered, followed by   *)
 (*         n operation events of 8 concurrent goroutines                       *)
@@ -27,10 +29,14 @@ MarkBadC(i, c) == MarkBad(i) /\ TLCSet(3, Append(TLCGet(3), <<i, c>>))
 PolClass(e) == IF e.len < HeaderSize THEN "short" ELSE Policy(e.hdr)
 
 \* "" when the observation is what the specification says, else the violated clause
+\* the lifecycle phase the recorder realised for the message (absent: "serving")
+PhaseOf(e) == IF "phase" \in DOMAIN e THEN e.phase ELSE "serving"
+
 PktVerdict(e) ==
-  LET o == Outcome(e.len, e.hdr, e.decodes)
+  LET o == OutcomeAt(PhaseOf(e), e.len, e.hdr, e.decodes)
       n == Len(e.replies) IN
-  IF e.handled # o.handled THEN "handler-count:" \o PolClass(e)
+  IF PhaseOf(e) \notin Phases THEN "malformed-event"
+  ELSE IF e.handled # o.handled THEN "handler-count:" \o PolClass(e)
   ELSE IF e.invalid # o.invalid THEN "invalid-callback-count:" \o PolClass(e)
   ELSE IF ~e.samereq THEN "handler-request-differs"
   ELSE IF o.reply = "none" THEN (IF n = 0 THEN "" ELSE "reply-unexpected:" \o PolClass(e))
